@@ -243,13 +243,25 @@ func c16RaceSession(args []string, _ []byte) string {
 				cancel()
 			}
 		}()
+		// the senders spin without pause; on a saturated machine with GOMAXPROCS=2 they can starve the closing goroutine for
+		// seconds. Whether Close returns is therefore judged after the senders were told to stop: a close that is merely
+		// starved returns then, one that is deadlocked does not.
+		stopped := false
 		select {
 		case <-closed:
-		case <-time.After(T):
-			return fmt.Sprintf("FAIL: %s did not return within %v while %d goroutines keep calling Send (round %d)", spec.Fault, T, 2*spec.Senders, round)
+		case <-time.After(T / 5):
+			close(stop)
+			stopped = true
+			select {
+			case <-closed:
+			case <-time.After(T):
+				return fmt.Sprintf("FAIL: %s did not return within %v (the last %v with no goroutine calling Send any more) after %d goroutines kept calling Send (round %d)", spec.Fault, T+T/5, T, 2*spec.Senders, round)
+			}
 		}
-		time.Sleep(2 * time.Millisecond)
-		close(stop)
+		if !stopped {
+			time.Sleep(2 * time.Millisecond)
+			close(stop)
+		}
 		done := make(chan struct{})
 		go func() { wg.Wait(); close(done) }()
 		select {
